@@ -125,16 +125,27 @@ pub fn gen(seed: u64) -> Scenario {
     Scenario { producers, main_msgs, mode, main_yields: r.below(3) as u8 }
 }
 
+/// Spelling of reporting address number `a`. The collector treats addresses as opaque strings; the
+/// pool mixes the forms that occur: fixed-width hex (ordinary terms), `UNKNOWN` (`Tid::new` for
+/// artificial terms), addresses with an address-space prefix, and other spellings of one number.
+pub fn addr_name(a: u8) -> String {
+    const NAMES: [&str; 12] = [
+        "00401000", "UNKNOWN", "EXTERNAL:00000008", "0040100c", "401000", "0x401000", "ram:00401000", "EXTERNAL:00000010",
+        "00401004", "0040100C", "00401010", "004010a0",
+    ];
+    NAMES[a as usize % NAMES.len()].to_string()
+}
+
 fn to_msg(m: &Msg) -> LogThreadMsg {
     match &m.kind {
         Kind::Gen => LogMessage::new_info(format!("#{}", m.content)).into(),
         Kind::Loc(a) => LogMessage::new_info(format!("#{}", m.content))
-            .location(Tid::blk_id_at_address(&format!("A{a}")).with_id_suffix(&format!("_{}", m.content)))
+            .location(Tid::blk_id_at_address(&addr_name(*a)).with_id_suffix(&format!("_{}", m.content)))
             .into(),
         Kind::Cwe(a, b) => {
-            let mut ad = vec![format!("A{a}")];
+            let mut ad = vec![addr_name(*a)];
             if let Some(b) = b {
-                ad.push(format!("A{b}"));
+                ad.push(addr_name(*b));
             }
             CweWarning::new("CWE0", "0", format!("#{}", m.content)).addresses(ad).into()
         }
